@@ -130,10 +130,43 @@ class Folding:
 
     def returns(self, fn):
         vals = set()
-        for n in func_own_nodes(fn):
-            if isinstance(n, ast.Return) and n.value is not None:
-                vals.add(self.expr(n.value, fn))
+        for v in ret_values(fn):
+            if v is not None:
+                vals.add(self.expr(v, fn))
         return vals.pop() if len(vals) == 1 else None
+
+
+def ret_values(fn):
+    """Return values of fn (None for a bare return); a returned local whose single definition is a pure expression
+    stands for that expression (`rv = e; return rv` is `return e`)."""
+    ud = unique_defs(fn)
+    out = []
+    for n in func_own_nodes(fn):
+        if isinstance(n, ast.Return):
+            v = n.value
+            for _i in range(4):
+                if isinstance(v, ast.Name) and v.id in ud:
+                    v = ud[v.id]
+            out.append(v)
+    return out
+
+
+def ret_value_of(fn, ret_stmt):
+    v = ret_stmt.value
+    ud = unique_defs(fn)
+    for _i in range(4):
+        if isinstance(v, ast.Name) and v.id in ud:
+            v = ud[v.id]
+    return v
+
+
+def _local_def(fn, e):
+    """The single definition of a local name (else the expression itself)."""
+    if isinstance(e, ast.Name) and e.id not in fn.params:
+        ds = all_defs(fn).get(e.id, [])
+        if len(ds) == 1 and ds[0] is not None:
+            return ds[0]
+    return e
 
 
 def cfg_node_of(fn, call):
@@ -967,7 +1000,7 @@ def run(ctx: Context):
         r.require(F.expr(uc.args[0], rd) == hf, rd, rd.loc(uc), "reads the header with %r, written with %r" % (F.expr(uc.args[0], rd), hf))
         tg = unpack_targets(rd, uc) or []
         r.require(len(tg) == len(hfields), rd, rd.loc(uc), "%d targets for %d header fields" % (len(tg), len(hfields)))
-        rets = [n.value for n in func_own_nodes(rd) if isinstance(n, ast.Return) and n.value is not None]
+        rets = [v for v in ret_values(rd) if v is not None]
         if not rets:
             raise AnchorVanished("_read_write_enabler_and_nodeid returns nothing")
         for v in rets:
@@ -1020,26 +1053,27 @@ def run(ctx: Context):
         r.require(v == do, "allmydata.storage.mutable_schema:_EXTRA_LEASE_OFFSET", msm.relpath,
                   "a new (empty) container records extra-lease offset %r ; its data area starts at DATA_OFFSET = %r and is "
                   "empty" % (v, do))
-        bl = [n for n in func_own_nodes(hw) if isinstance(n, ast.Assign) and attr_path(n.targets[0]) == "blank_leases"]
-        if not bl:
-            raise AnchorVanished("_header.blank_leases")
-        bv = F.with_sizes(bl[0].value, msm)
-        r.site(hw, bl[0], "lease slots")
+        pieces = None
+        for v in ret_values(hw):
+            lst = v.args[0] if isinstance(v, ast.Call) and call_tail(v) == "join" and v.args else None
+            if isinstance(lst, (ast.List, ast.Tuple)):
+                pieces = [_local_def(hw, x) for x in lst.elts]
+        if not pieces or len(pieces) < 2:
+            raise AnchorVanished("_header no longer joins the container pieces")
+        bl = pieces[1]
+        bv = F.with_sizes(bl, msm)
+        r.site(hw, bl, "lease slots")
         r.require(isinstance(bv, bytes) and len(bv) == 4 * _struct.calcsize(fmts["mutable"]) and not bv.strip(b"\x00"), hw,
-                  hw.loc(bl[0]), "the header is followed by %r bytes of blank leases ; 4 slots of %d zero bytes" % (
+                  hw.loc(bl), "the header is followed by %r bytes of blank leases ; 4 slots of %d zero bytes" % (
                       len(bv) if isinstance(bv, bytes) else None, _struct.calcsize(fmts["mutable"])))
         # the joined pieces: fixed header, blank leases, extra lease count
         cntp = [c for c in packs if c is not pc]
         cnt_fmt = F.expr(cntp[0].args[0], hw) if cntp else None
         r.require(len(cntp) == 1 and cnt_fmt == ">L" and F.expr(cntp[0].args[1], hw) == 0, hw, hw.loc(),
                   "a new container's extra-lease count is not pack('>L', 0)")
-        joined = [n for n in func_own_nodes(hw) if isinstance(n, ast.Return)]
-        for n in joined:
-            v = n.value
-            lst = v.args[0] if isinstance(v, ast.Call) and call_tail(v) == "join" and v.args else None
-            order = [attr_path(x) for x in lst.elts] if isinstance(lst, (ast.List, ast.Tuple)) else None
-            r.require(order == ["fixed_header", "blank_leases", "extra_lease_count"], hw, hw.loc(n),
-                      "container pieces are joined as %s" % order)
+        r.require(len(pieces) == 3 and pieces[0] is pc and len(cntp) == 1 and pieces[2] is cntp[0], hw, hw.loc(),
+                  "container pieces are joined as %s ; specified fixed header, blank lease slots, extra-lease count" % (
+                      [src(hw, x) for x in pieces]))
         # accessors of single header fields
         acc = [
             ("_read_data_length", "unpack", "self.DATA_LENGTH_OFFSET", 3),
@@ -1084,8 +1118,13 @@ def run(ctx: Context):
                          norm_src("extra_lease_offset + %d + (%s - 4) * self.LEASE_SIZE" % (cnt, ln))}
             got = set()
             cfg = fn.cfg()
-            for n in cfg.find(stores("offset")):
-                v = assign_value(n, "offset")
+            sk = calls_in_func(fn, "seek")
+            ovs = {attr_path(c.args[0]) for c in sk if c.args}
+            if len(ovs) != 1 or None in ovs:
+                raise AnchorVanished("%s: seek to the slot offset held in one local (found %s)" % (fn.qual, sorted(map(str, ovs))))
+            ov = ovs.pop()
+            for n in cfg.find(stores(ov)):
+                v = assign_value(n, ov)
                 s = fnn.norm(n, v)
                 got.add(s)
                 r.require(s == hdr_form or s in ext_forms, fn, fn.loc(n.ast), "lease slot %s is placed at %s ; slots 0-3 live at "
@@ -1099,12 +1138,11 @@ def run(ctx: Context):
             def in_header(n, lab, _ln=ln, _fnn=fnn):
                 f = _fnn.edge_fact(n, lab)
                 return bool(f) and f[0] == "<" and f[1] == _ln and f[2] == "4"
-            tg = lambda n, _f=hdr_form, _fnn=fnn: "offset" in node_stores(n) and assign_value(n, "offset") is not None \
-                and _fnn.norm(n, assign_value(n, "offset")) == _f
+            tg = lambda n, _f=hdr_form, _fnn=fnn, _ov=ov: _ov in node_stores(n) and assign_value(n, _ov) is not None \
+                and _fnn.norm(n, assign_value(n, _ov)) == _f
             for (n, wpath) in find_path_avoiding(cfg, tg, gate_edge=in_header):
                 r.violation(fn, fn.loc(n.ast), "the header-slot formula is used without %s < 4 (path: %s)" % (ln, wpath.brief()), wpath)
-            sk = calls_in_func(fn, "seek")
-            r.require(bool(sk) and all(attr_path(c.args[0]) == "offset" for c in sk), fn, fn.loc(), "%s does not seek to the computed offset" % mname)
+            r.require(bool(sk), fn, fn.loc(), "%s does not seek to the computed offset" % mname)
         rl = idx.func(MSF + "._read_lease_record")
         reads = [c for c in calls_in_func(rl, "read") if c.args and attr_path(c.args[0]) == "self.LEASE_SIZE"]
         r.require(bool(reads), rl, rl.loc(), "_read_lease_record does not read self.LEASE_SIZE bytes")
@@ -1143,7 +1181,7 @@ def run(ctx: Context):
         mm = idx.func("storage.mutable_schema:_Schema.magic_matches")
         r.site(mm, None)
         cp = first_positional_params(mm)[0]
-        rets = [n.value for n in func_own_nodes(mm) if isinstance(n, ast.Return) and n.value is not None]
+        rets = [v for v in ret_values(mm) if v is not None]
         want = {norm_src("%s[:len(self._magic)] == self._magic" % cp), norm_src("%s.startswith(self._magic)" % cp)}
         r.require(bool(rets) and all(N(mm).norm(v) in want for v in rets), mm, mm.loc(),
                   "magic_matches returns %s ; the whole magic must be compared" % [src(mm, v) for v in rets])
@@ -1153,7 +1191,7 @@ def run(ctx: Context):
 
     # ---- 5. netstring ----------------------------------------------------------
     nsw = idx.func("util.netstring:netstring")
-    rets = [n.value for n in func_own_nodes(nsw) if isinstance(n, ast.Return) and n.value is not None]
+    rets = [v for v in ret_values(nsw) if v is not None]
     if len(rets) != 1:
         raise AnchorVanished("netstring(): single return")
     rexpr = rets[0]
@@ -1192,6 +1230,51 @@ def run(ctx: Context):
         want_pos = nf(_sub(ast.parse("P2 + 1", mode="eval").body, {"P2": renv["position2"]}))
         r.require(pn in env and nf(env[pn]) == want_pos, rdf, rdf.loc(loops[0]), "after one netstring the position is %s ; "
                   "specified %s" % (nf(env[pn]) if pn in env else None, want_pos))
+        # malformed input is rejected: truncated payload, too few strings, leftover data
+        len_forms = {nf(_sub(ast.parse(t, mode="eval").body, {"S": renv["string"], "L": renv["length"]})) for t in (
+            "len(S) == L", "L == len(S)")}
+        r.require(bool(asserts & len_forms), rdf, rdf.loc(loops[0]), "no check that the payload has the announced length (a "
+                  "netstring cut short inside its payload is returned as a shorter string); checks present: %s" % sorted(asserts))
+        rcfg = rdf.cfg()
+        rn = FlowNorm(rdf)
+        r.count(len(rcfg.nodes))
+        raw_app = [n for n in ast.walk(loops[0]) if isinstance(n, ast.Call) and call_tail(n) == "append" and len(n.args) == 1]
+        elems = attr_path(raw_app[0].func.value) if raw_app else None
+        num = rps[1] if len(rps) > 1 else "numstrings"
+        tp = rps[3] if len(rps) > 3 else "required_trailer"
+        if elems is None or not rcfg.find(is_return):
+            raise AnchorVanished("split_netstring: the list of elements / a return statement")
+
+        def enough(n, lab):
+            f = rn.edge_fact(n, lab)
+            return f is not None and f == rn.at(n).cmp(parse_expr("len(%s) >= %s" % (elems, num)), True)
+        for (t, w) in find_path_avoiding(rcfg, is_return, gate_edge=enough):
+            r.violation(rdf, rdf.loc(t.ast), "split_netstring returns without the fact len(%s) >= %s: data that holds fewer "
+                        "netstrings than asked for is accepted (path %s)" % (elems, num, w.brief()), w)
+
+        def tr3(n, lab, nxt, st):
+            if lab == "exc":
+                return None
+            f = rn.edge_fact(n, lab)
+            if f is not None:
+                if f[0] == "is not" and {f[1], f[2]} == {tp, "None"}:
+                    st = max(st, 1)
+                elif f[0] == "is" and {f[1], f[2]} == {tp, "None"}:
+                    st = 0
+                elif f == rn.at(n).cmp(parse_expr("%s[%s:] == %s" % (dn, pn, tp)), True):
+                    st = 2
+            if st == 2 and pn in node_stores(n):
+                st = 1
+            return st
+        visited, parent = explore(rcfg, 0, tr3)
+        if not any(st >= 1 for (_i, st) in visited):
+            raise AnchorVanished("split_netstring no longer tests `%s is not None`" % tp)
+        for (nid, st) in sorted(visited):
+            if st == 1 and is_return(rcfg.nodes[nid]):
+                w = witness(rcfg, parent, (nid, st))
+                r.violation(rdf, rdf.loc(rcfg.nodes[nid].ast), "with a required trailer split_netstring returns without the fact "
+                            "%s[%s:] == %s: leftover bytes after the last netstring are accepted (path %s)" % (dn, pn, tp, w.brief()), w)
+                break
 
     # ---- 6. URI extension block -----------------------------------------------
     with ctx.rule("C38.6", "R5", "UEB: pack_extension emits key ':' netstring(value) with decimal ints and colon-free keys; "
@@ -1256,7 +1339,7 @@ def run(ctx: Context):
         if len(loops) != 1:
             raise AnchorVanished("unpack_extension: single while loop")
         r.site(up, loops[0], "reader")
-        r.require(norm_plain(loops[0].test) == udp, up, up.loc(loops[0]), "the loop runs while %s ; every byte of the block must "
+        r.require(N().cmp(loops[0].test, True) == ("truth", udp, None), up, up.loc(loops[0]), "the loop runs while %s ; every byte of the block must "
                   "be consumed" % norm_plain(loops[0].test))
         env, ev = straight_line(loops[0].body)
         r.count(len(ev))
@@ -1281,6 +1364,7 @@ def run(ctx: Context):
                   "specified %s" % (nf(env[udp]) if udp in env else None, nf(renv["rest"])))
         # int keys
         intkeys, conv_ok = None, False
+        conv_nodes = []
         for st in up.node.body:
             if isinstance(st, ast.For) and isinstance(st.iter, (ast.Tuple, ast.List)) and all(
                     isinstance(x, ast.Constant) and isinstance(x.value, str) for x in st.iter.elts):
@@ -1291,10 +1375,26 @@ def run(ctx: Context):
                             and call_name(n.value) == "int" and len(n.value.args) == 1 and not n.value.keywords \
                             and norm_plain(n.value.args[0]) == norm_plain(n.targets[0]) and attr_path(n.targets[0].slice) == lv:
                         conv_ok = True
+                        conv_nodes.append((n, lv, attr_path(n.targets[0].value)))
         if intkeys is None:
             raise AnchorVanished("unpack_extension: the literal tuple of integer keys")
         r.site(up, None, "int keys %s" % sorted(intkeys))
         r.require(conv_ok, up, up.loc(), "integer keys are not converted with d[k] = int(d[k])")
+        ucfg = up.cfg()
+        unorm = FlowNorm(up)
+        for (cn, lv_, dv_) in conv_nodes:
+            def present(n, lab, _lv=lv_, _dv=dv_):
+                f = unorm.edge_fact(n, lab)
+                return f is not None and f[0] == "in" and f[1] == _lv and f[2] == _dv
+            for (t, w) in find_path_avoiding(ucfg, lambda n, _c=cn: n.kind == "stmt" and n.ast is _c, gate_edge=present,
+                                             kill=lambda n, _lv=lv_: n.kind == "iter" and _lv in node_stores(n)):
+                r.violation(up, up.loc(cn), "%s[%s] is converted to int without the fact `%s in %s`: keys that are present stay "
+                            "bytes (or a block without the key fails) on the path %s" % (dv_, lv_, lv_, dv_, w.brief()), w)
+        rets_ = ret_values(up)
+        dnames = {dv_ for (_c, _l, dv_) in conv_nodes} | {attr_path(e[1]) for e in sets}
+        r.require(bool(rets_) and all(v is not None and attr_path(v) in dnames for v in rets_) and len(dnames) == 1, up, up.loc(),
+                  "unpack_extension returns %s ; the entries are collected in %s" % (
+                      [src(up, v) if v is not None else None for v in rets_], sorted(x for x in dnames if x)))
         enc = idx.cls("immutable.encode:Encoder")
         stored_int, stored_all = set(), set()
         for m in enc.methods.values():
@@ -1369,26 +1469,26 @@ def run(ctx: Context):
         r.require(attr_path(dflt.get("s8")) == "s8" and attr_path(dflt.get("chars")) == "chars", cb, cb.loc(),
                   "could_be_base32_encoded is not bound to the module tables s8 / chars")
         sp = first_positional_params(cb)[0]
-        rets = [n.value for n in func_own_nodes(cb) if isinstance(n, ast.Return) and n.value is not None and not isinstance(n.value, ast.Constant)]
+        rets = [v for v in ret_values(cb) if v is not None and not isinstance(v, ast.Constant)]
         wantr = norm_src("s8[len(%s) %% 8][%s[-1]] and not tr(%s, identitytranstable, chars)" % (sp, sp, sp))
         r.require(bool(rets) and all(norm_plain(v) == wantr for v in rets), cb, cb.loc(), "could_be_base32_encoded returns %s ; "
                   "specified: last character by s8[len %% 8], every character in chars" % [src(cb, v) for v in rets])
         # case / padding symmetry
         ep = first_positional_params(enc)[0]
-        erets = [n.value for n in func_own_nodes(enc) if isinstance(n, ast.Return) and n.value is not None]
+        erets = [v for v in ret_values(enc) if v is not None]
         r.site(enc, None)
         forms = {norm_src('base64.b32encode(%s).rstrip(b"=").lower()' % ep), norm_src('base64.b32encode(%s).lower().rstrip(b"=")' % ep)}
         r.require(bool(erets) and all(N(enc).norm(v) in forms for v in erets), enc, enc.loc(),
                   "b2a returns %s ; specified RFC 4648 base32, '=' padding stripped, lower case" % [src(enc, v) for v in erets])
         loops = [n for n in func_own_nodes(decf) if isinstance(n, ast.While)]
         pad_ok = len(loops) == 1 and norm_plain(loops[0].test) in (
-            norm_src("(len(%s) * 5) %% 8 != 0" % dp), norm_src("len(%s) %% 8 != 0" % dp)) and len(loops[0].body) == 1 and \
-            isinstance(loops[0].body[0], ast.AugAssign) and isinstance(loops[0].body[0].op, ast.Add) and \
-            attr_path(loops[0].body[0].target) == dp and F.expr(loops[0].body[0].value, decf) == b"="
+            norm_src("(len(%s) * 5) %% 8 != 0" % dp), norm_src("len(%s) %% 8 != 0" % dp)) and len(_nopass(loops[0].body)) == 1 and \
+            isinstance(_nopass(loops[0].body)[0], ast.AugAssign) and isinstance(_nopass(loops[0].body)[0].op, ast.Add) and \
+            attr_path(_nopass(loops[0].body)[0].target) == dp and F.expr(_nopass(loops[0].body)[0].value, decf) == b"="
         r.require(pad_ok, decf, decf.loc(), "a2b does not re-pad with '=' to a multiple of 8 characters before b32decode")
         ups = [n for n in func_own_nodes(decf) if isinstance(n, ast.Assign) and attr_path(n.targets[0]) == dp
                and norm_plain(n.value) == "%s.upper()" % dp]
-        drets = [n.value for n in func_own_nodes(decf) if isinstance(n, ast.Return) and n.value is not None]
+        drets = [v for v in ret_values(decf) if v is not None]
         r.require(bool(ups) and bool(drets) and all(norm_plain(v) == "base64.b32decode(%s)" % dp for v in drets), decf, decf.loc(),
                   "a2b does not upper-case its input and hand it to base64.b32decode")
         # base62
@@ -1520,7 +1620,7 @@ def run(ctx: Context):
                 if n.kind == "iter" and isinstance(n.ast.target, ast.Name):
                     loopvars[n.ast.target.id] = n
             for rn in rets:
-                v = rn.ast.value
+                v = ret_value_of(fn, rn.ast)
                 if not (isinstance(v, ast.Name) and v.id in loopvars):
                     r.violation(fn, fn.loc(rn.ast), "%s returns %s, which is not a schema selected by comparing it with "
                                 "the header: a container of an unknown version gets this schema" % (fn.name, src(fn, v)))
@@ -1589,7 +1689,7 @@ def run(ctx: Context):
                 vw_ = VersionWalk.__new__(VersionWalk)
                 vw_.fn, vw_.F, vw_.vnames, vw_.defs = iv, F, set(), all_defs(iv)
                 ev_ = vw_.ev
-            rets = [n.value for n in func_own_nodes(iv) if isinstance(n, ast.Return)]
+            rets = ret_values(iv)
             if not rets:
                 raise AnchorVanished("%s returns nothing" % iv.qual)
             for v in rets:
@@ -1602,6 +1702,602 @@ def run(ctx: Context):
                 r.require(res is False, iv, iv.loc(v), "is_valid_header returns %s, which is %s when %s finds no schema: a "
                           "header of an unknown version is accepted as this container type" % (
                               src(iv, v), "true" if res else "not decidably false", lname))
+
+    _rule_transfer(ctx, idx, F)
+    _rule_offset_table(ctx, idx, F)
+
+
+# ---- 12. immutable share offset table: per-version layout agreement -------------------------
+def _rule_offset_table(ctx, idx, F):
+    with ctx.rule("C38.12", "R5", "immutable share offset table: for each version a writer emits, the part of every reader that "
+                  "only that version reaches binds the table start and the field width / format of that writer's pack "
+                  "format; field names are read in the order they are packed; the writer's own fieldsize / fieldstruct / "
+                  "first data offset derive from its format", expected=5) as r:
+        wbp = idx.cls("immutable.layout:WriteBucketProxy")
+        layouts = {}
+        names = None
+        for ci in [wbp] + list(idx.subclasses(wbp)):
+            m = ci.methods.get("_create_offsets")
+            if m is None:
+                continue
+            packs = [c for c in struct_calls(m, "pack") if len(c.args) >= 10]
+            if len(packs) != 1:
+                raise AnchorVanished("%s: the pack call of the offset table" % m.qual)
+            pc = packs[0]
+            fmt = F.expr(pc.args[0], m)
+            ver = F.expr(pc.args[1], m)
+            if not isinstance(fmt, str) or not isinstance(ver, int):
+                raise AnalysisError("%s: offset table format / version do not fold" % m.qual)
+            fs = struct_fields(fmt)
+            r.site(m, pc, "writer v%d %r" % (ver, fmt))
+            if not r.require(len(fs) == len(pc.args) - 1 == 9 and len(set(fs[3:])) == 1 and fs[3][0] in "BHILQ", m, m.loc(pc),
+                             "the offset table %r is not version, 2 sizes and 6 offsets of one width" % fmt):
+                continue
+            bo = fmt[0] if fmt[0] in "@=<>!" else ""
+            fchar = fs[3][0]
+            lay = {"start": prefix_size(fmt, 3), "size": _struct.calcsize(bo + fchar), "char": fchar, "total": _struct.calcsize(fmt)}
+            r.require(ver not in layouts, m, m.loc(pc), "two writers emit version %d" % ver)
+            layouts[ver] = lay
+            keys = []
+            for a in pc.args[4:]:
+                keys.append(a.slice.value if isinstance(a, ast.Subscript) and isinstance(a.slice, ast.Constant) else None)
+            if None in keys:
+                raise AnalysisError("%s: offsets are not packed as offsets['name']" % m.qual)
+            r.require(names is None or names == keys, m, m.loc(pc), "the writers pack the offsets in different orders: %s / %s" % (names, keys))
+            names = names or keys
+            fsz = F.fo.class_attr(ci, "fieldsize") if "fieldsize" in ci.attrs else None
+            fst = F.fo.class_attr(ci, "fieldstruct") if "fieldstruct" in ci.attrs else None
+            r.require(fsz == lay["size"] and fst == bo + fchar, ci.qual, ci.module.relpath, "%s.fieldsize / fieldstruct = %r / %r ; "
+                      "the offset fields of %r are %r (%d bytes) and the URI extension length is written with the same format" % (
+                          ci.name, fsz, fst, fmt, bo + fchar, lay["size"]))
+            first = None
+            for n in m.cfg().nodes:
+                if n.kind == "stmt" and isinstance(n.ast, ast.Assign) and isinstance(n.ast.value, ast.Name):
+                    for t in n.ast.targets:
+                        if isinstance(t, ast.Subscript) and isinstance(t.slice, ast.Constant) and t.slice.value == keys[0]:
+                            first = FlowNorm(m).resolve(n, n.ast.value)
+            v0 = F.expr(first, m) if first is not None else None
+            r.require(v0 == lay["total"], m, m.loc(pc), "the first section (%s) is placed at %r ; the offset table %r occupies "
+                      "%d bytes from offset 0" % (keys[0], v0, fmt, lay["total"]))
+        if len(layouts) < 2:
+            raise AnchorVanished("immutable layout writers (versions found: %s)" % sorted(layouts))
+        for q, want_names in (("immutable.layout:ReadBucketProxy._parse_offsets", True),
+                              ("immutable.downloader.share:Share._satisfy_offsets", True),
+                              ("immutable.downloader.share:Share._desire_offsets", False)):
+            fn = idx.func(q)
+            vw = VersionWalk(fn, F)
+            r.site(fn, vw.starts[0].ast, "reader")
+            reach = {v: vw.walk(v)[0] for v in layouts}
+            r.count(vw.states)
+            roles = (set(), set(), set())
+            for v, lay in sorted(layouts.items()):
+                own = reach[v] - set().union(*[reach[w] for w in layouts if w != v])
+                ints, strs = {}, {}
+                env = {}
+                opaque = {}
+                for _pass in range(3):
+                    for nid in sorted(own):
+                        n = vw.cfg.nodes[nid]
+                        if n.kind != "stmt" or not isinstance(n.ast, ast.Assign) or len(n.ast.targets) != 1:
+                            continue
+                        tp = attr_path(n.ast.targets[0])
+                        if tp is None:
+                            continue
+                        val = F.expr(n.ast.value, fn, local=dict(env))
+                        if val is None or isinstance(val, bool):
+                            opaque[tp] = n
+                            continue
+                        opaque.pop(tp, None)
+                        if isinstance(val, int):
+                            ints[tp] = val
+                        elif isinstance(val, str):
+                            strs[tp] = val
+                        if "." not in tp:
+                            env[tp] = val
+                if opaque:
+                    raise AnalysisError("%s: the version-%d branch binds %s to a value that does not fold to a constant" % (
+                        fn.qual, v, sorted(opaque)))
+                if not ints:
+                    raise AnalysisError("%s: no statement reached only by version %d binds a layout constant" % (fn.qual, v))
+                r.require(set(ints.values()) == {lay["start"], lay["size"]}, fn, fn.loc(vw.starts[0].ast),
+                          "for a version-%d share %s binds %s ; the version-%d writer puts the offset table at 0x%x with %d-byte "
+                          "fields" % (v, fn.name, ", ".join("%s = 0x%x" % kv for kv in sorted(ints.items())), v, lay["start"], lay["size"]))
+                roles[0].update(tp for tp, x in ints.items() if x == lay["start"])
+                roles[1].update(tp for tp, x in ints.items() if x == lay["size"])
+                roles[2].update(strs)
+                r.require(all(x in (lay["char"], ">" + lay["char"]) for x in strs.values()), fn, fn.loc(vw.starts[0].ast),
+                          "for a version-%d share %s binds %s ; the version-%d writer packs the offsets as %r" % (
+                              v, fn.name, ", ".join("%s = %r" % kv for kv in sorted(strs.items())), v, ">" + lay["char"]))
+            _layout_shape(r, fn, vw, roles, len(names or []))
+            seqs = []
+            for x in func_own_nodes(fn):
+                if isinstance(x, (ast.Tuple, ast.List)) and len(x.elts) >= 3 and all(
+                        isinstance(e, ast.Constant) and isinstance(e.value, str) for e in x.elts) and \
+                        set(e.value for e in x.elts) & set(names or []):
+                    seqs.append([e.value for e in x.elts])
+            if want_names and not seqs:
+                raise AnchorVanished("%s: the literal sequence of offset field names" % fn.qual)
+            for sq in seqs:
+                r.require(sq == names, fn, fn.loc(), "%s reads the offsets as %s ; they are packed as %s" % (fn.name, sq, names))
+
+
+def _layout_shape(r, fn, vw, roles, nfields):
+    """How a reader uses the per-version layout variables: the table is addressed as (start, nfields * width) and
+    unpacked either field by field (format variable, data[x:x+width], x advanced by width, stored under the loop's
+    field name) or as a whole ('>' + nfields * format character, stored by enumerate index)."""
+    start_vars, size_vars, fmt_vars = roles
+    if not start_vars or not size_vars:
+        raise AnalysisError("%s: the variables holding the table start / field width were not identified" % fn.qual)
+    binding = {id(c) for _nm, c in vw.bind.values()}
+    table_size = {norm_src("%d * %s" % (nfields, sv)) for sv in size_vars}
+    for c in [x for x in func_own_nodes(fn) if isinstance(x, ast.Call)]:
+        if len(c.args) == 2 and not c.keywords and call_name(c) != "struct.unpack":
+            a0, a1 = attr_path(c.args[0]), _dn(fn, c.args[1])
+            if a0 in start_vars or a1 in table_size or attr_path(c.args[1]) in start_vars or _dn(fn, c.args[0]) in table_size:
+                r.require(a0 in start_vars and a1 in table_size, fn, fn.loc(c), "the offset table is addressed as %s ; it is "
+                          "the range (%s, %d * %s)" % (src(fn, c), "/".join(sorted(start_vars)), nfields, "/".join(sorted(size_vars))))
+    for c in struct_calls(fn, "unpack"):
+        if id(c) in binding or len(c.args) != 2:
+            continue
+        fmt, data = c.args
+        loop = None
+        for lp in [x for x in func_own_nodes(fn) if isinstance(x, ast.For)]:
+            if any(x is c for x in ast.walk(lp)):
+                loop = lp
+        if attr_path(fmt) in fmt_vars:
+            ok = isinstance(data, ast.Subscript) and isinstance(data.slice, ast.Slice) and data.slice.step is None \
+                and attr_path(data.slice.lower) in start_vars and data.slice.upper is not None \
+                and norm_plain(data.slice.upper) in {norm_src("%s + %s" % (attr_path(data.slice.lower), sv)) for sv in size_vars}
+            r.require(ok, fn, fn.loc(c), "one offset is unpacked from %s ; field i lives at [x : x + width]" % src(fn, data))
+            if not ok:
+                continue
+            xv = attr_path(data.slice.lower)
+            if loop is None or not isinstance(loop.target, ast.Name):
+                raise AnalysisError("%s: per-field unpack outside a loop over the field names" % fn.qual)
+            adv = [x for x in ast.walk(loop) if isinstance(x, ast.AugAssign) and isinstance(x.op, ast.Add) and attr_path(x.target) == xv
+                   and attr_path(x.value) in size_vars]
+            adv += [x for x in ast.walk(loop) if isinstance(x, ast.Assign) and len(x.targets) == 1 and attr_path(x.targets[0]) == xv
+                    and norm_plain(x.value) in {norm_src("%s + %s" % (xv, sv)) for sv in size_vars}]
+            r.require(len(adv) == 1, fn, fn.loc(loop), "%s is not advanced by the field width once per field: every offset is read "
+                      "from the same position" % xv)
+            vals = {nm for nm, vs in all_defs(fn).items() if vs and all(
+                v is not None and isinstance(v, ast.Subscript) and v.value is c and isinstance(v.slice, ast.Constant) and v.slice.value == 0
+                for v in vs)}
+            st = [x for x in ast.walk(loop) if isinstance(x, ast.Assign) and len(x.targets) == 1 and isinstance(x.targets[0], ast.Subscript)
+                  and attr_path(x.targets[0].slice) == loop.target.id]
+            r.require(len(st) == 1 and (attr_path(st[0].value) in vals or (
+                isinstance(st[0].value, ast.Subscript) and st[0].value.value is c)), fn, fn.loc(loop),
+                "the unpacked offset is not stored under the field name %s" % loop.target.id)
+            if len(st) == 1:
+                tbl = attr_path(st[0].targets[0].value)
+                rets = ret_values(fn)
+                r.require(bool(rets) and all(v is not None and attr_path(v) == tbl for v in rets), fn, fn.loc(),
+                          "%s returns %s ; the offsets are collected in %s" % (fn.name, [src(fn, v) if v is not None else None for v in rets], tbl))
+        else:
+            got = _dn(fn, fmt)
+            want = {norm_src("'>' + %d * %s" % (nfields, fv)) for fv in fmt_vars}
+            if not r.require(got in want, fn, fn.loc(c), "the offset table is unpacked with %s ; it holds %d fields of the "
+                             "version's format (%s)" % (got, nfields, sorted(want))):
+                continue
+            fields = {nm for nm, vs in all_defs(fn).items() if vs and all(v is c for v in vs)}
+            lps = [lp for lp in func_own_nodes(fn) if isinstance(lp, ast.For) and isinstance(lp.iter, ast.Call)
+                   and call_name(lp.iter) == "enumerate" and isinstance(lp.target, ast.Tuple) and len(lp.target.elts) == 2]
+            ok = False
+            for lp in lps:
+                iv, fv = [attr_path(e) for e in lp.target.elts]
+                for x in ast.walk(lp):
+                    if isinstance(x, ast.Assign) and len(x.targets) == 1 and isinstance(x.targets[0], ast.Subscript) \
+                            and attr_path(x.targets[0].slice) == fv and isinstance(x.value, ast.Subscript) \
+                            and attr_path(x.value.value) in fields and attr_path(x.value.slice) == iv:
+                        ok = True
+            r.require(ok, fn, fn.loc(c), "the unpacked fields are not stored as table[name] = fields[index] over enumerate(names)")
+
+
+# ---- 11. records, counts and headers actually reach the file / the caller --------------
+def _deep(fn, e, depth=4):
+    """`e` with every local of `fn` that has exactly one definition replaced by that definition (shape comparison only)."""
+    params = set(fn.params)
+    env = {nm: vs[0] for nm, vs in all_defs(fn).items() if nm not in params and len(vs) == 1 and vs[0] is not None}
+    for _i in range(depth):
+        e = _sub(e, env)
+    return e
+
+
+def _dn(fn, e):
+    return norm_plain(_deep(fn, e))
+
+
+def _node_with(fn, call):
+    return cfg_node_of(fn, call)
+
+
+def _must_reach(r, fn, gate_nodes, what, start=None):
+    """Every non-exceptional path (from `start`, default entry) to the normal exit passes one of gate_nodes."""
+    cfg = fn.cfg()
+    ids = {n.id for n in gate_nodes}
+    bad = find_path_avoiding(cfg, lambda n: n.kind == "exit", gate_node=lambda n: n.id in ids, start=start,
+                             skip_exc_edges=True)
+    r.count(len(cfg.nodes))
+    for (_t, w) in bad:
+        r.violation(fn, fn.loc(start.ast if start is not None and start.ast is not None else None),
+                    "%s on the path %s" % (what, w.brief()), w)
+    return not bad
+
+
+def _rule_transfer(ctx, idx, F):
+    SER = "self._schema.lease_serializer.serialize(%s)"
+    UNSER = "self._schema.lease_serializer.unserialize(%s.read(self.LEASE_SIZE))"
+    with ctx.rule("C38.11", "R5", "lease records, lease counts and container headers are transferred: the record writers "
+                  "write serialize(lease) at the computed offset, the count writers write the count, add_lease stores "
+                  "record n and count n+1, the record readers return unserialize(bytes read) (None only for owner 0), "
+                  "the count of extra mutable leases grows exactly when a slot beyond it is written, a new container "
+                  "gets its header, the serializers hand the record to/from their codec", expected=19) as r:
+        # -- record writers
+        for q in (SF, MSF):
+            fn = idx.func(q + "._write_lease_record")
+            ps = first_positional_params(fn)
+            if len(ps) < 3:
+                raise AnchorVanished("%s(f, lease_number, lease_info)" % fn.qual)
+            want = norm_src(SER % ps[2])
+            ws = [c for c in calls_in_func(fn, "write") if len(c.args) == 1 and attr_path(c.func.value) == ps[0]
+                  and _dn(fn, c.args[0]) == want]
+            sk = [c for c in calls_in_func(fn, "seek") if attr_path(c.func.value) == ps[0]]
+            if not sk:
+                raise AnchorVanished("%s no longer seeks" % fn.qual)
+            r.site(fn, sk[0], "record writer")
+            if not ws:
+                r.violation(fn, fn.loc(), "%s does not write %s to %s: the lease record never reaches the file" % (
+                    fn.name, SER % ps[2], ps[0]))
+                continue
+            wn = [_node_with(fn, c) for c in ws]
+            for c in sk:
+                _must_reach(r, fn, wn, "after %s.seek(%s) the record %s is not written" % (ps[0], src(fn, c.args[0]), SER % ps[2]),
+                            start=_node_with(fn, c))
+        # -- immutable lease count
+        we = idx.func(SF + "._write_encoded_num_leases")
+        wps = first_positional_params(we)
+        sk = [c for c in calls_in_func(we, "seek") if attr_path(c.func.value) == wps[0]]
+        if not sk:
+            raise AnchorVanished("%s no longer seeks" % we.qual)
+        r.site(we, sk[0], "count writer")
+        ws = [c for c in calls_in_func(we, "write") if len(c.args) == 1 and attr_path(c.func.value) == wps[0]
+              and _dn(we, c.args[0]) == wps[1]]
+        if not ws:
+            r.violation(we, we.loc(), "%s does not write %s: the lease count in the header is never updated and "
+                        "get_leases enumerates the old number of records" % (we.name, wps[1]))
+        else:
+            for c in sk:
+                _must_reach(r, we, [_node_with(we, x) for x in ws], "after the seek to the lease count field %s is not written" % wps[1],
+                            start=_node_with(we, c))
+        wnl = idx.func(SF + "._write_num_leases")
+        nps = first_positional_params(wnl)
+        r.site(wnl, None, "count writer")
+        want = norm_src("struct.pack(self._lease_count_format, %s)" % nps[1])
+        cs = [c for c in calls_in_func(wnl, "_write_encoded_num_leases") if len(c.args) == 2 and attr_path(c.args[0]) == nps[0]
+              and _dn(wnl, c.args[1]) == want]
+        if not cs:
+            r.violation(wnl, wnl.loc(), "%s does not hand pack(_lease_count_format, %s) to _write_encoded_num_leases" % (wnl.name, nps[1]))
+        else:
+            _must_reach(r, wnl, [_node_with(wnl, c) for c in cs], "the lease count is not written")
+        # -- immutable add_lease: record n, then count n + 1
+        al = idx.func(SF + ".add_lease")
+        lp = first_positional_params(al)[0]
+        rc = calls_in_func(al, "_read_num_leases")
+        if not rc or not rc[0].args:
+            raise AnchorVanished("ShareFile.add_lease no longer reads the lease count")
+        fv = attr_path(rc[0].args[0])
+        r.site(al, rc[0], "append a record")
+        cnt = "self._read_num_leases(%s)" % fv
+        recs = [c for c in calls_in_func(al, "_write_lease_record") if len(c.args) == 3 and attr_path(c.args[0]) == fv
+                and _dn(al, c.args[1]) == norm_src(cnt) and attr_path(c.args[2]) == lp]
+        if not recs:
+            r.violation(al, al.loc(), "add_lease does not write %s as record number %s (the first free slot): %s" % (
+                lp, cnt, [src(al, c) for c in calls_in_func(al, "_write_lease_record")]))
+        else:
+            _must_reach(r, al, [_node_with(al, c) for c in recs], "add_lease returns without writing the lease record")
+        cws = [c for c in calls_in_func(al, "_write_encoded_num_leases") if len(c.args) == 2 and attr_path(c.args[0]) == fv
+               and _dn(al, c.args[1]) == norm_src("struct.pack(self._lease_count_format, %s + 1)" % cnt)]
+        cws += [c for c in calls_in_func(al, "_write_num_leases") if len(c.args) == 2 and attr_path(c.args[0]) == fv
+                and _dn(al, c.args[1]) == norm_src("%s + 1" % cnt)]
+        if not cws:
+            r.violation(al, al.loc(), "add_lease does not store the lease count %s + 1 after appending one record: %s" % (
+                cnt, [src(al, c) for c in calls_in_func(al, "_write_encoded_num_leases") + calls_in_func(al, "_write_num_leases")]))
+        else:
+            _must_reach(r, al, [_node_with(al, c) for c in cws], "add_lease returns without storing the new lease count")
+        # -- immutable reader
+        gl = idx.func(SF + ".get_leases")
+        ys = [n for n in func_own_nodes(gl) if isinstance(n, ast.Yield) and n.value is not None]
+        if not ys:
+            raise AnchorVanished("ShareFile.get_leases yields nothing")
+        r.site(gl, ys[0], "record reader")
+        for y in ys:
+            got = _dn(gl, y.value)
+            r.require(re.match(r"^self\._schema\.lease_serializer\.unserialize\(\w+\.read\(self\.LEASE_SIZE\)\)$", got) is not None,
+                      gl, gl.loc(y), "get_leases yields %s ; a lease is %s" % (got, UNSER % "f"))
+        gcfg = gl.cfg()
+        gnorm = FlowNorm(gl)
+        rd_nodes = [n for n in gcfg.nodes if any(call_tail(c) == "read" and c.args and attr_path(c.args[0]) == "self.LEASE_SIZE"
+                                                 for c in node_calls(n))]
+        sk_nodes = [n for n in gcfg.nodes if any(call_tail(c) == "seek" and c.args and attr_path(c.args[0]) == "self._lease_offset"
+                                                 for c in node_calls(n))]
+        if not rd_nodes:
+            raise AnchorVanished("ShareFile.get_leases no longer reads LEASE_SIZE bytes")
+        skids = {n.id for n in sk_nodes}
+        rdids = {n.id for n in rd_nodes}
+        for (t, w) in find_path_avoiding(gcfg, lambda n: n.id in rdids, gate_node=lambda n: n.id in skids):
+            r.violation(gl, gl.loc(t.ast), "lease records are read without a seek to self._lease_offset: after the header the file "
+                        "position is the start of the share data (path %s)" % w.brief(), w)
+        dvars = {t for n in rd_nodes for t in node_stores(n) if "." not in t and not t.endswith("[]")}
+        ynodes = [n for n in gcfg.nodes if n.ast is not None and n.kind == "stmt" and any(isinstance(x, ast.Yield) for x in own_nodes(n.ast))]
+
+        def tr_y(n, lab, nxt, st):
+            if lab == "exc":
+                return None
+            if n.id in rdids:
+                st = 0
+            f = gnorm.edge_fact(n, lab)
+            if f is not None and f[1] in dvars:
+                st = 1 if f[0] == "false" else 0
+            return st
+        visited, parent = explore(gcfg, 0, tr_y)
+        for yn in ynodes:
+            if (yn.id, 1) in visited and (yn.id, 0) not in visited:
+                w = witness(gcfg, parent, (yn.id, 1))
+                r.violation(gl, gl.loc(yn.ast), "a lease is yielded only when the bytes read are empty: every stored record is "
+                            "skipped (path %s)" % w.brief(), w)
+        # -- a new immutable container gets its header
+        ini = idx.func(SF + ".__init__")
+        ips = first_positional_params(ini)
+        if len(ips) < 3:
+            raise AnchorVanished("ShareFile.__init__(filename, max_size, create, ...)")
+        mp, cp = ips[1], ips[2]
+        icfg = ini.cfg()
+        inorm = FlowNorm(ini)
+        hw = set()
+        for c in calls_in_func(ini, "write"):
+            a = _deep(ini, c.args[0]) if len(c.args) == 1 else None
+            if isinstance(a, ast.Call) and call_tail(a) == "header" and len(a.args) == 1 and attr_path(a.args[0]) == mp \
+                    and isinstance(a.func, ast.Attribute) and attr_path(a.func.value) in ("self._schema", "schema"):
+                hw.add(_node_with(ini, c).id)
+
+        def tr(n, lab, nxt, st):
+            if lab == "exc":
+                return None
+            f = inorm.edge_fact(n, lab)
+            if f is not None and f[0] == "truth" and f[1] == cp:
+                st = max(st, 1)
+            if st == 1 and n.id in hw:
+                st = 2
+            return st
+        visited, parent = explore(icfg, 0, tr)
+        r.site(ini, None, "create path")
+        r.count(len(visited))
+        if not any(st >= 1 for (_i, st) in visited):
+            raise AnchorVanished("ShareFile.__init__ has no branch on %s" % cp)
+        if (icfg.exit.id, 1) in visited:
+            w = witness(icfg, parent, (icfg.exit.id, 1))
+            r.violation(ini, ini.loc(), "with %s true the container is created without writing self._schema.header(%s): the "
+                        "file has no version / size header and cannot be opened again (path %s)" % (cp, mp, w.brief()), w)
+        cr = idx.func(MSF + ".create")
+        hcs = calls_in_func(cr, "header")
+        r.site(cr, hcs[0] if hcs else None, "create path")
+        wr = [c for c in calls_in_func(cr, "write") if len(c.args) == 1 and isinstance(_deep(cr, c.args[0]), ast.Call)
+              and call_tail(_deep(cr, c.args[0])) == "header"]
+        if not wr:
+            r.violation(cr, cr.loc(), "MutableShareFile.create does not write the schema header to the new file")
+        else:
+            _must_reach(r, cr, [_node_with(cr, c) for c in wr], "create() returns without writing the header")
+        # -- mutable: the count of extra leases grows exactly when a slot beyond it is written
+        wl = idx.func(MSF + "._write_lease_record")
+        fp, ln = first_positional_params(wl)[:2]
+        wcfg = wl.cfg()
+        wnorm = FlowNorm(wl)
+        cnt = "self._read_num_extra_leases(%s)" % fp
+        cnt_names = [cnt] + [nm for nm, vs in all_defs(wl).items() if vs and all(
+            v is not None and norm_plain(v) == norm_src(cnt) for v in vs)]
+        bump = set()
+        for c in calls_in_func(wl, "_write_num_extra_leases"):
+            if len(c.args) == 2 and attr_path(c.args[0]) == fp and _dn(wl, c.args[1]) == norm_src(cnt + " + 1"):
+                bump.add(_node_with(wl, c).id)
+            else:
+                r.violation(wl, wl.loc(c), "the extra-lease count is set to %s ; one appended record makes it %s + 1" % (
+                    src(wl, c.args[1]) if len(c.args) == 2 else None, cnt))
+        if not calls_in_func(wl, "_write_num_extra_leases"):
+            raise AnchorVanished("MutableShareFile._write_lease_record no longer updates the extra-lease count")
+
+        def in_range(nrm, n, lab, _ln=ln):
+            f = nrm.edge_fact(n, lab)
+            if f is None:
+                return False
+            here = nrm.at(n)
+            if f == here.cmp(parse_expr("%s < 4" % _ln), True):
+                return True
+            return any(f == here.cmp(parse_expr("%s - 4 < %s" % (_ln, c_)), True) for c_ in cnt_names)
+
+        def tr2(n, lab, nxt, st):
+            if lab == "exc":
+                return None
+            known, flags, counted = st
+            if n.kind == "test":
+                f = wnorm.edge_fact(n, lab)
+                if f is not None and f[0] in ("truth", "false") and f[1] in dict(flags):
+                    if dict(flags)[f[1]] != (f[0] == "truth"):
+                        return None
+                if in_range(wnorm, n, lab):
+                    known = True
+            elif n.kind == "stmt" and isinstance(n.ast, ast.Assign) and len(n.ast.targets) == 1 and isinstance(
+                    n.ast.targets[0], ast.Name):
+                nm = n.ast.targets[0].id
+                d = dict(flags)
+                if isinstance(n.ast.value, ast.Constant) and isinstance(n.ast.value.value, bool):
+                    d[nm] = n.ast.value.value
+                else:
+                    d.pop(nm, None)
+                flags = tuple(sorted(d.items()))
+            if n.id in bump:
+                counted = True
+            return (known, flags, counted)
+        visited, parent = explore(wcfg, (False, (), False), tr2)
+        r.site(wl, None, "extra-lease count")
+        r.count(len(visited))
+        for (nid, st) in sorted(visited, key=lambda x: (x[0], str(x[1]))):
+            if nid != wcfg.exit.id:
+                continue
+            known, _flags, counted = st
+            if not known and not counted:
+                w = witness(wcfg, parent, (nid, st))
+                r.violation(wl, wl.loc(), "a record is written to a slot that is not known to exist (neither %s < 4 nor "
+                            "%s - 4 < %s holds) and the extra-lease count is not incremented: the lease is never read "
+                            "back (path %s)" % (ln, ln, cnt, w.brief()), w)
+                break
+        for (nid, st) in sorted(visited, key=lambda x: (x[0], str(x[1]))):
+            if nid == wcfg.exit.id and st[0] and st[2]:
+                w = witness(wcfg, parent, (nid, st))
+                r.violation(wl, wl.loc(), "the extra-lease count is incremented although an existing slot was overwritten: "
+                            "the count then covers a record that is not in the file (path %s)" % w.brief(), w)
+                break
+        # -- mutable record reader
+        rl = idx.func(MSF + "._read_lease_record")
+        fp, ln = first_positional_params(rl)[:2]
+        rcfg = rl.cfg()
+        rnorm = FlowNorm(rl)
+        r.site(rl, None, "record reader")
+        r.count(len(rcfg.nodes))
+        cnt = "self._read_num_extra_leases(%s)" % fp
+        cnt_names = [cnt] + [nm for nm, vs in all_defs(rl).items() if vs and all(
+            v is not None and norm_plain(v) == norm_src(cnt) for v in vs)]
+        good = []
+        for n in rcfg.find(is_return):
+            v = ret_value_of(rl, n.ast)
+            if v is None or (isinstance(v, ast.Constant) and v.value is None):
+                continue
+            got = _dn(rl, v)
+            if r.require(got == norm_src(UNSER % fp), rl, rl.loc(n.ast), "_read_lease_record returns %s ; the record is %s" % (
+                    got, UNSER % fp)):
+                good.append(n)
+        if not good:
+            r.violation(rl, rl.loc(), "_read_lease_record never returns the unserialized record: every lease slot reads as empty")
+        for n in good:
+            v = ret_value_of(rl, n.ast)
+
+            def nonzero(m, lab, _v=v):
+                f = rnorm.edge_fact(m, lab)
+                return f is not None and f == rnorm.at(m).cmp(parse_expr("(%s).owner_num != 0" % ast.unparse(_v)), True)
+            for (_t, w) in find_path_avoiding(rcfg, lambda m, _n=n: m is _n, gate_edge=nonzero):
+                r.violation(rl, rl.loc(n.ast), "the record is returned without the fact owner_num != 0 (owner 0 marks an empty "
+                            "slot) on the path %s" % w.brief(), w)
+        if good:
+            gids = {n.id for n in good}
+            lv = [ast.unparse(ret_value_of(rl, n.ast)) for n in good]
+
+            def zero(m, lab):
+                f = rnorm.edge_fact(m, lab)
+                return f is not None and any(f == rnorm.at(m).cmp(parse_expr("(%s).owner_num == 0" % x), True) for x in lv)
+            for (_t, w) in find_path_avoiding(rcfg, lambda m: m.kind == "exit", gate_node=lambda m: m.id in gids, gate_edge=zero,
+                                              skip_exc_edges=True):
+                r.violation(rl, rl.loc(), "_read_lease_record returns None (empty slot) without the fact owner_num == 0: a "
+                            "stored lease is dropped on the path %s" % w.brief(), w)
+
+        def beyond(m, lab, _ln=ln):
+            f = rnorm.edge_fact(m, lab)
+            if f is None:
+                return False
+            here = rnorm.at(m)
+            return any(f == here.cmp(parse_expr("%s - 4 %s %s" % (_ln, op, c_)), True) for c_ in cnt_names for op in (">=", ">"))
+        for (t, w) in find_path_avoiding(rcfg, raises("IndexError"), gate_edge=beyond):
+            r.violation(rl, rl.loc(t.ast), "IndexError is raised for a lease number that is not known to be beyond the slots "
+                        "(no fact %s - 4 >= %s): _enumerate_leases stops at it and the remaining leases are lost (path %s)" % (
+                            ln, cnt, w.brief()), w)
+        # -- mutable slot enumeration
+        gs = idx.func(MSF + "._get_num_lease_slots")
+        gp = first_positional_params(gs)[0]
+        rets = ret_values(gs)
+        r.site(gs, None, "slot count")
+        r.require(bool(rets) and all(v is not None and _dn(gs, v) == norm_src("4 + self._read_num_extra_leases(%s)" % gp) for v in rets),
+                  gs, gs.loc(), "_get_num_lease_slots returns %s ; there are 4 header slots + the extra-lease count" % (
+                      [src(gs, v) if v is not None else None for v in rets]))
+        en = idx.func(MSF + "._enumerate_leases")
+        ep = first_positional_params(en)[0]
+        r.site(en, None, "enumeration")
+        loops = [n for n in func_own_nodes(en) if isinstance(n, ast.For)]
+        ok = len(loops) == 1 and norm_plain(loops[0].iter) == norm_src("range(self._get_num_lease_slots(%s))" % ep) \
+            and isinstance(loops[0].target, ast.Name)
+        r.require(ok, en, en.loc(), "_enumerate_leases does not visit range(_get_num_lease_slots(%s))" % ep)
+        if ok:
+            iv = loops[0].target.id
+            ys = [n for n in func_own_nodes(en) if isinstance(n, ast.Yield)]
+            want = norm_src("(%s, self._read_lease_record(%s, %s))" % (iv, ep, iv))
+            r.require(bool(ys) and all(y.value is not None and _dn(en, y.value) == want for y in ys), en, en.loc(),
+                      "_enumerate_leases yields %s ; specified (slot, record of that slot)" % (
+                          [src(en, y.value) if y.value is not None else None for y in ys]))
+            ecfg = en.cfg()
+            enorm = FlowNorm(en)
+            recs = {nm for nm, vs in all_defs(en).items() if vs and all(
+                v is not None and isinstance(v, ast.Call) and call_tail(v) == "_read_lease_record" for v in vs)}
+            yn = [n for n in ecfg.nodes if n.kind == "stmt" and n.ast is not None and any(isinstance(x, ast.Yield) for x in own_nodes(n.ast))]
+
+            def not_none(n, lab):
+                f = enorm.edge_fact(n, lab)
+                if f is None:
+                    return False
+                if f[0] == "is not" and "None" in (f[1], f[2]):
+                    x = f[2] if f[1] == "None" else f[1]
+                    return x in recs or x == norm_src("self._read_lease_record(%s, %s)" % (ep, iv))
+                return f[0] == "truth" and f[1] in recs
+            ynids = {n.id for n in yn}
+            for (t, w) in find_path_avoiding(ecfg, lambda n: n.id in ynids, gate_edge=not_none,
+                                             kill=lambda n: n.kind == "stmt" and bool(recs & node_stores(n))):
+                r.violation(en, en.loc(t.ast), "a slot is yielded without the fact that its record is not None: empty slots are "
+                            "reported and stored leases are not (path %s)" % w.brief(), w)
+        # -- accessor readers hand back what they unpacked
+        for q in (SF + "._read_num_leases", MSF + "._read_data_length", MSF + "._read_extra_lease_offset",
+                  MSF + "._read_num_extra_leases"):
+            fn = idx.func(q)
+            ups = struct_calls(fn, "unpack")
+            if len(ups) != 1:
+                raise AnchorVanished("%s: %d struct.unpack calls" % (fn.qual, len(ups)))
+            r.site(fn, ups[0], "accessor result")
+            rets = [n.value for n in func_own_nodes(fn) if isinstance(n, ast.Return)]
+            want = norm_plain(ast.Subscript(value=ups[0], slice=ast.Constant(value=0), ctx=ast.Load()))
+            r.require(bool(rets) and all(v is not None and _dn(fn, v) == want for v in rets), fn, fn.loc(),
+                      "%s returns %s ; the field is the value it unpacked" % (fn.name, [src(fn, v) if v is not None else None for v in rets]))
+        # -- serializers hand the record to / from their codec
+        for cname in ("CleartextLeaseSerializer", "HashedLeaseSerializer"):
+            ci = idx.cls("storage.lease_schema:" + cname)
+            se, un = ci.lookup("serialize"), ci.lookup("unserialize")
+            if se is None or un is None:
+                raise AnchorVanished("%s.serialize/unserialize" % cname)
+            sp = first_positional_params(se)[0]
+            r.site(se, None, "serializer")
+            rets = ret_values(se)
+            r.require(bool(rets) and all(v is not None and isinstance(v, ast.Call) and attr_path(v.func) == "self._to_data"
+                                         and len(v.args) == 1 and attr_path(v.args[0]) == sp for v in rets), se, se.loc(),
+                      "%s.serialize returns %s ; the bytes are self._to_data(%s)" % (cname, [src(se, v) if v is not None else None for v in rets], sp))
+            _must_reach(r, se, se.cfg().find(is_return), "%s.serialize ends without returning the record bytes" % cname)
+            up = first_positional_params(un)[0]
+            rets = ret_values(un)
+
+            def has_from(v, _up=up):
+                return v is not None and any(isinstance(x, ast.Call) and attr_path(x.func) == "self._from_data" and len(x.args) == 1
+                                             and attr_path(x.args[0]) == _up for x in ast.walk(v))
+            r.require(bool(rets) and all(has_from(v) for v in rets), un, un.loc(),
+                      "%s.unserialize returns %s ; the lease is built from self._from_data(%s)" % (
+                          cname, [src(un, v) if v is not None else None for v in rets], up))
+        hl = idx.func("storage.lease_schema:HashedLeaseSerializer._hash_lease_info")
+        hp = first_positional_params(hl)[0]
+        assoc = calls_in_func(hl, "assoc")
+        if not assoc:
+            raise AnchorVanished("_hash_lease_info no longer builds the hashed lease with attr.assoc")
+        for c in assoc:
+            r.site(hl, c, "hashed secrets")
+            kws = {k.arg: k.value for k in c.keywords}
+            r.require(set(kws) == {"renew_secret", "cancel_secret"} and len(c.args) == 1 and attr_path(c.args[0]) == hp, hl, hl.loc(c),
+                      "the hashed lease replaces %s of %s ; specified renew_secret and cancel_secret of %s" % (
+                          sorted(k for k in kws if k), src(hl, c.args[0]) if c.args else None, hp))
+            for k, v in kws.items():
+                ok = isinstance(v, ast.Call) and call_tail(v) == "_hash_secret" and len(v.args) == 1 and attr_path(v.args[0]) == "%s.%s" % (hp, k)
+                r.require(ok, hl, hl.loc(c), "%s of the stored lease is %s ; specified _hash_secret(%s.%s)" % (k, src(hl, v), hp, k))
+
 
 # -- small helpers used above ------------------------------------------------------
 def _returns_with(self, fn, local):
@@ -1620,6 +2316,10 @@ def _returns_with(self, fn, local):
 
 
 Folding.returns_with = _returns_with
+
+
+def _nopass(stmts):
+    return [st for st in stmts if not isinstance(st, ast.Pass)]
 
 
 def _concat_parts(e):
